@@ -27,7 +27,7 @@ FaultKinds == <<"illegal_char_line", "stray_identifier_line", "stray_comma_line"
                 "bad_ref_operator", "bad_action", "bad_colour", "text_after_close_brace", "delete_open_bracket", "delete_close_bracket",
                 "duplicate_open_bracket", "duplicate_close_bracket",
                 "empty_settings", "trailing_comma_in_settings", "missing_comma_in_settings", "missing_value", "ref_without_column",
-                "keyword_typo">>
+                "keyword_typo", "junk_in_type_args">>
 
 \* site = [ctx, kind, feats] : the line the fault is applied to (insertions go BEFORE that line, in its block)
 Has(site, f) == \E i \in DOMAIN site.feats : site.feats[i] = f
@@ -62,6 +62,8 @@ ProvablyInvalid(fault, site) ==
     [] fault = "ref_without_column" -> site.kind \in {"ref_short", "ref_body"}
     \* the words that open an element are fixed
     [] fault = "keyword_typo" -> site.kind \in {"table_head", "enum_head", "group_head", "project_head", "ref_head", "ref_short", "sticky_head", "indexes_head"}
+    \* the arguments of a type are numbers, names and quoted text: @ ? % = ] are no part of any of them
+    [] fault = "junk_in_type_args" -> site.kind = "column" /\ Has(site, "type_args")
     [] OTHER -> FALSE
 
 \* the only outcome a parse of a provably invalid text may have
